@@ -11,7 +11,7 @@ This module contains classes and functions to remove component tensors.
 from collections import defaultdict
 
 from ufl.algorithms.map_integrands import map_integrand_dags
-from ufl.classes import ComponentTensor, Index, MultiIndex, Zero
+from ufl.classes import ComponentTensor, Index, IndexSum, MultiIndex, Zero
 from ufl.corealg.map_dag import map_expr_dag
 from ufl.corealg.multifunction import MultiFunction
 from ufl.index_combination_utils import unique_sorted_indices
@@ -67,6 +67,65 @@ class IndexReplacer(MultiFunction):
         return MultiIndex(indices)
 
 
+class BoundIndexRenamer(MultiFunction):
+    """Rename the indices in ``clash`` where they are bound (by an IndexSum or a ComponentTensor).
+
+    Every binding node that binds one of the given indices is replaced by an
+    alpha-equivalent node over a fresh Index, so that a subsequent index
+    replacement cannot capture, or be captured by, these indices.
+    """
+
+    def __init__(self, clash):
+        """Initialise."""
+        MultiFunction.__init__(self)
+        self.clash = clash
+
+    expr = MultiFunction.reuse_if_untouched
+
+    def _rename(self, o, bound):
+        fimap = {i: Index() for i in bound if i in self.clash}
+        if fimap:
+            return map_expr_dag(IndexReplacer(fimap), o)
+        return o
+
+    def index_sum(self, o, summand, multiindex):
+        """Rename the summation index if it clashes."""
+        if o.ufl_operands[0] is not summand:
+            o = o._ufl_expr_reconstruct_(summand, multiindex)
+        return self._rename(o, tuple(multiindex)) if isinstance(o, IndexSum) else o
+
+    def component_tensor(self, o, expression, multiindex):
+        """Rename the bound indices that clash."""
+        if o.ufl_operands[0] is not expression:
+            o = o._ufl_expr_reconstruct_(expression, multiindex)
+        return self._rename(o, tuple(multiindex)) if isinstance(o, ComponentTensor) else o
+
+
+def bound_indices(expr):
+    """Return the set of indices bound by an IndexSum or a ComponentTensor inside expr."""
+    from ufl.corealg.traversal import unique_pre_traversal
+
+    bound = set()
+    for node in unique_pre_traversal(expr):
+        if isinstance(node, IndexSum | ComponentTensor):
+            bound.update(node.ufl_operands[1])
+    return bound
+
+
+def replace_indices(expr, fimap, vcache=None, rcache=None, rule=None):
+    """Replace free indices of expr according to fimap, avoiding capture.
+
+    Indices bound inside expr that coincide with a replaced index or with
+    a replacement are first renamed to fresh indices.
+    """
+    clash = bound_indices(expr) & (set(fimap) | {i for i in fimap.values() if isinstance(i, Index)})
+    if clash:
+        # Rare: rename, and do not reuse caches across different fresh names
+        expr = map_expr_dag(BoundIndexRenamer(clash), expr)
+        return map_expr_dag(rule or IndexReplacer(fimap), expr)
+    return map_expr_dag(rule or IndexReplacer(fimap), expr, vcache=vcache, rcache=rcache)
+
+
 class IndexRemover(MultiFunction):
     """Remove Indexed."""
 
@@ -97,7 +156,9 @@ class IndexRemover(MultiFunction):
                 self.rules[rkey] = rule
 
             key = (IndexReplacer, *rkey)
-            return map_expr_dag(rule, o2, vcache=self.vcaches[key], rcache=self.rcaches[key])
+            return replace_indices(
+                o2, rule.fimap, vcache=self.vcaches[key], rcache=self.rcaches[key], rule=rule
+            )
 
         elif o.ufl_operands[0] is o1:
             # Reuse if untouched
